@@ -172,11 +172,11 @@ Definition prim_check (c : prim_case) : bool :=
 Definition prim_expected (c : prim_case) : list N :=
   flat_map (fun r => pack_limbs (prim_spec (pr_prim c) r)) (map (unpack (prim_nin (pr_prim c))) (pr_in c)).
 
-(* single-byte sweep: the rows are  0 .. 0 x 0 .. 0  with x = 0 .. ps_count - 1 in column ps_col *)
-Record sweep_case := { ps_prim : prim; ps_col : nat; ps_count : nat; ps_obs : list N }.
+(* single-byte sweep: the rows are  0 .. 0 x 0 .. 0  with x = ps_start .. ps_start + ps_count - 1 in column ps_col *)
+Record sweep_case := { ps_prim : prim; ps_col : nat; ps_start : nat; ps_count : nat; ps_obs : list N }.
 Definition single_row (n j : nat) (x : N) : list N := map (fun i => if Nat.eqb i j then x else 0) (seq 0 n).
 Definition sweep_rows (c : sweep_case) : list (list N) :=
-  map (fun x => single_row (prim_nin (ps_prim c)) (ps_col c) (N.of_nat x)) (seq 0 (ps_count c)).
+  map (fun x => single_row (prim_nin (ps_prim c)) (ps_col c) (N.of_nat x)) (seq (ps_start c) (ps_count c)).
 Definition sweep_check (c : sweep_case) : bool :=
   nlist_eqb (map (fun r => pack (prim_spec (ps_prim c) r)) (sweep_rows c)) (ps_obs c)
   && nlist_eqb (map (fun r => pack (prim_model (ps_prim c) r)) (sweep_rows c)) (ps_obs c).
